@@ -1,5 +1,6 @@
 import Ysshra.Lemmas.Shim
 import Ysshra.Lemmas.ShimArr
+import Ysshra.Lemmas.ShimSync
 /-
 C07 — the shim agent never lists or signs with expired, premature or keyless certificates.
 -/
@@ -293,6 +294,112 @@ theorem c07_list_output_valid (s : State) (now : Nat) (f : Faults) (s' : State) 
               exact hmem mc hmc
             · obtain ⟨id0, h0, e⟩ := listVisible_blobs s1 keys id hv
               exact hkeys id0 h0 c (by rw [← e]; exact hc)
+
+/-- **Purged from both.**  With an underlying agent that answers (open, unlocked, no faults during
+    this operation): after a successful `filter` the underlying agent itself holds no certificate
+    outside its validity window any more, and holds exactly the identities of the returned list. -/
+theorem c07_purged_from_agent (s : State) (now : Nat) (s' : State) (keys : List Ident)
+    (hopen : s.u.closed = false) (hunl : s.u.locked = false) (uniq : Distinct s.u.idents)
+    (hf : filter s now noFaults = (s', some keys)) :
+    (∀ x, x ∈ s'.u.idents ↔ x ∈ keys) ∧
+    ∀ x ∈ s'.u.idents, ∀ c, x.blob = .cert c → validAt c now = true := by
+  have hl : s.u.list noFaults = (s.u, some s.u.idents) := by
+    unfold UAgent.list UAgent.gate; simp [hopen, hunl, noFaults]
+  have hvalid := (c07_listing_valid s now noFaults s.u.idents keys s.u s' hl uniq hf).1
+  unfold filter at hf
+  rw [hl] at hf
+  simp only [] at hf
+  have h0 : Sync { s with u := s.u } (⟨s.u.idents, s.u.idents.length⟩ : KeyArr) := by
+    refine ⟨hopen, hunl, Nat.le_refl _, ?_, ?_⟩
+    · unfold KeyArr.live; simpa using uniq
+    · intro x; unfold KeyArr.live; simp
+  have h1 := filterOrphans_sync _ _ h0
+  cases ho : filterOrphans { s with u := s.u } noFaults ⟨s.u.idents, s.u.idents.length⟩ with
+  | mk s1 ka1 =>
+    rw [ho] at hf h1
+    simp only [] at hf h1
+    have h2 := expiredInAgent_sync now ka1.len 0 s1 ka1 false h1
+    cases he : expiredInAgent now noFaults ka1.len 0 s1 ka1 false with
+    | mk s2 r2 =>
+      obtain ⟨ka2, err⟩ := r2
+      rw [he] at hf h2
+      simp only [] at hf h2
+      have h3 := expiredInMemory_sync now s2 ka2 h2
+      cases hm : expiredInMemory now noFaults s2 ka2 with
+      | mk s3 ka3 =>
+        rw [hm] at hf h3
+        simp only [] at hf h3
+        cases err with
+        | true => simp at hf
+        | false =>
+          simp only [Bool.false_eq_true, ↓reduceIte, Prod.mk.injEq, Option.some.injEq] at hf
+          obtain ⟨rfl, rfl⟩ := hf
+          refine ⟨h3.same, ?_⟩
+          intro x hx c hc
+          exact hvalid x ((h3.same x).mp hx) c hc
+
+/-- **A signing request naming a purged certificate fails.**  With an underlying agent that answers
+    (open, unlocked, no faults during this operation), signing with a certificate that is outside its
+    validity window at the time of the request never yields a signature — wherever the certificate
+    was held. -/
+theorem c07_sign_purged_fails (s : State) (now : Nat) (c : Cert) (hinv : validAt c now = false)
+    (hopen : s.u.closed = false) (hunl : s.u.locked = false) (uniq : Distinct s.u.idents) :
+    ∀ k, (step s now noFaults (.sign (.cert c))).2 ≠ .signed (.ok k) := by
+  intro k
+  simp only [step]
+  by_cases hlk : s.locked = true
+  · simp [hlk]
+  · simp only [hlk, Bool.false_eq_true, ↓reduceIte]
+    cases hf : filter s now noFaults with
+    | mk s' r =>
+      cases r with
+      | none => simp
+      | some keys =>
+        simp only []
+        -- not in memory any more
+        have hl : s.u.list noFaults = (s.u, some s.u.idents) := by
+          unfold UAgent.list UAgent.gate; simp [hopen, hunl, noFaults]
+        have hmem := (c07_memory_purged s now noFaults s.u.idents s.u hl).1
+        rw [hf] at hmem
+        have hnm : hasCert s' c = false := by
+          cases hh : hasCert s' c with
+          | false => rfl
+          | true =>
+            unfold hasCert at hh
+            simp only [List.any_eq_true, decide_eq_true_eq] at hh
+            obtain ⟨mc, hmc, rfl⟩ := hh
+            rw [hmem mc hmc] at hinv; cases hinv
+        simp only [hnm, Bool.false_eq_true, ↓reduceIte]
+        split
+        · simp
+        · -- not in the underlying agent any more
+          have hag := (c07_purged_from_agent s now s' keys hopen hunl uniq hf).2
+          have hgi : (s'.u.gate noFaults .sign).1.idents = s'.u.idents := by
+            unfold UAgent.gate; split
+            · rfl
+            · simp [noFaults]
+          have hsign : (s'.u.sign noFaults (.cert c)).2 = none := by
+            unfold UAgent.sign
+            simp only []
+            split
+            · rfl
+            · split
+              · rfl
+              · split
+                · rename_i hany
+                  rw [hgi] at hany
+                  simp only [List.any_eq_true, decide_eq_true_eq] at hany
+                  obtain ⟨x, hx, hxb⟩ := hany
+                  have := hag x hx c hxb
+                  rw [this] at hinv; cases hinv
+                · rfl
+          unfold signOut
+          cases hs : s'.u.sign noFaults (.cert c) with
+          | mk u' r =>
+            rw [hs] at hsign
+            simp only [] at hsign
+            subst hsign
+            simp
 
 /-- Non-vacuity, on the pattern that makes swap-removal delicate: three expired certificates and one
     valid one, the expired ones first, last and adjacent — the listing that comes back is exactly
